@@ -125,7 +125,7 @@ Col(NL, p) == LET before == {q \in NL : q < p} IN
 
 \* L1: LineCounter.feed(token, test_newline) over a token [s,e)
 \* lc = [pos, line, lsp]  (char_pos, line, line_start_pos)
-Feed(lc, NL, s, e, test) ==
+LcFeed(lc, NL, s, e, test) ==
   LET inside == {q \in NL : q >= s /\ q < e} IN
   IF test /\ inside # {}
   THEN [pos |-> e, line |-> lc.line + Cardinality(inside),
